@@ -2,7 +2,8 @@ import Driver.Common
 import Altrios.Dispatch
 /-
   Driver ops of property C04 (meet-pass authority table).
-    c04_step  spacing overlap net table ops   →  ok <side conditions> <planOk of the result> <result table>
+    c04_step  spacing overlap net table ops links_blocked
+                  →  ok <side conditions> <planOk of the result> <links_blocked covers the result> <result table>
     c04_final spacing net table               →  ok <planOk>
   Tables travel sparsely: the number of links, then only the links that carry real authorities
   (the `-∞` sentinel that heads every list is implied).
@@ -83,10 +84,12 @@ def handlers : List (String × Handler) := [
     let net ← pNet
     let tbl ← pTable
     let ops ← seq pOp
+    let blocked ← seq nat      -- links_blocked of the resulting snapshot
     match replay net sp ov tbl ops with
     | none => pure "panic"
     | some (ok, t) =>
-      pure (join ["ok", fB (ok && netOk net tbl.length), fB (planOk net sp posInf t), fTable t])),
+      pure (join ["ok", fB (ok && netOk net tbl.length), fB (planOk net sp posInf t),
+        fB (blockedOk net posInf t blocked), fTable t])),
   ("c04_final", do
     let sp ← float
     let net ← pNet
